@@ -13,7 +13,7 @@ import os, re, json, stat
 from concurrent.futures import ThreadPoolExecutor
 from . import common as C, repo as R
 
-FLAGS_AS_IS = "000"      # fixed_P7 fixed_P8 fixed_mv_absent
+FLAGS_AS_IS = "0000"     # fixed_P7 fixed_P8 fixed_mv_absent fixed_P45
 
 
 def flags_from_source():
@@ -29,7 +29,9 @@ def flags_from_source():
     p8 = "symlink_metadata().unwrap()" not in un and "all_content_digests[xe]" not in un
     m = re.search(r"\(RecheckMethod::Copy, RecheckMethod::Copy\) => \{(.*?)\n                \}", mv, re.S)
     mva = bool(m and re.search(r"!\s*source_path\.exists\(\)", m.group(1)))
-    return "".join("1" if b else "0" for b in (p7, p8, mva))
+    # the pre-check of the P45 fix: cmd_move looks up the destination's cache path before it changes any record
+    p45 = bool(re.search(r"XvcCachePath::new\(dest_path, cd\)", mv)) and "is not in the cache" in mv
+    return "".join("1" if b else "0" for b in (p7, p8, mva, p45))
 MINE = ("copy", "move", "remove", "untrack")
 
 TRUSTED = [
@@ -526,7 +528,7 @@ def run_property(chk, replay, focus, oracle, classify_corr, nontrivial, rule, n_
                         "edits_visible: user writes get distinct explicit modification times"]
     chk.proof()
     flags = flags_from_source()
-    chk.cov["model_switches"] = {"fixed_P7": flags[0] == "1", "fixed_P8": flags[1] == "1", "fixed_mv_absent": flags[2] == "1",
+    chk.cov["model_switches"] = {"fixed_P7": flags[0] == "1", "fixed_P8": flags[1] == "1", "fixed_mv_absent": flags[2] == "1", "fixed_P45": flags[3] == "1",
                                  "read_from": "file/src/untrack/mod.rs, file/src/mv/mod.rs of the working tree"}
     model = C.ensure_model("Repoext", ["Base", "Repo", "Glob"])
     xvc = C.ensure_xvc()
